@@ -19,7 +19,7 @@ func init() { fw.Register(c11{}) }
 
 func (c11) ID() string { return "C11" }
 func (c11) Rule() string {
-	return "API level: every sequence of <=5 (thorough: <=6) operations from {Set k v for 8 keys (2 ints, a float equal to one int, another float, string, bool, nil, array: 7 distinct under the order), Delete k, Append a 1/3/5-pair map, Rest, Range(0,2), Range(1,4)} " +
+	return "API level: every sequence of <=5 (thorough: <=6) operations from {Set k v for 9 keys (2 ints, a float equal to one int, another float, string, bool, nil, arrays of length 1 and 3: 8 distinct under the order), Delete k, Append a 1/3/5-pair map, Rest, Range(0,2), Range(1,4)} " +
 		"applied to object.Map starting from the empty map, each rebuilt from scratch and compared after the last operation with a sorted-unique-key reference map on Len, Get of every universe key, Inspect, First/Rest iteration order and Equals with a freshly built equal map " +
 		"(crosses the 4-pair threshold both ways); random sequences of 50..300 operations over 20 keys with intermediate handles re-checked. Language level: random sequences rendered as grol source on one variable (literals in random pair order, m[k]=v, m.k=v, del, +, rest, slices) " +
 		"observed through len, m[k], print, for kv = m, ==. non-trivial = sequence with >=2 operations that changed the map; distinct = distinct operation sequences."
@@ -68,6 +68,9 @@ func c11Key(i int) (object.Object, gt.Val) {
 		return object.NULL, gt.Nil{}
 	case 7:
 		return object.NewArray([]object.Object{object.Integer{Value: 1}}), &gt.Arr{E: []gt.Val{int64(1)}}
+	case 8: // a second array key whose length differs by two from the first one
+		return object.NewArray([]object.Object{object.Integer{Value: 1}, object.Integer{Value: 2}, object.Integer{Value: 3}}),
+			&gt.Arr{E: []gt.Val{int64(1), int64(2), int64(3)}}
 	}
 	// big universe: strings
 	s := fmt.Sprintf("key%02d", i)
@@ -88,10 +91,10 @@ func c11AppendMap(size int) (object.Map, *gt.Map) {
 
 var c11EnumOps = func() []c11Op {
 	var ops []c11Op
-	for k := 0; k < 8; k++ {
+	for k := 0; k < 9; k++ {
 		ops = append(ops, c11Op{Kind: "set", K: k})
 	}
-	for k := 0; k < 8; k++ {
+	for k := 0; k < 9; k++ {
 		ops = append(ops, c11Op{Kind: "del", K: k})
 	}
 	for _, sz := range []int{1, 3, 5} {
@@ -284,7 +287,7 @@ func (p c11) runOps(c *fw.Ctx, ops []c11Op, universe int, checkEvery bool) {
 // ---- language level ----
 
 func c11KeySrc(i int) string {
-	return []string{"1", "2", "2.0", "2.5", `"a"`, "true", "nil", "[1]", `"b"`, `"zz"`, "3", "0.5"}[i]
+	return []string{"1", "2", "2.0", "2.5", `"a"`, "true", "nil", "[1]", `"b"`, `"zz"`, "[1, 2, 3]", "0.5"}[i]
 }
 
 func (p c11) langSession(c *fw.Ctx) {
@@ -421,7 +424,7 @@ func c11LangKey(i int) gt.Val {
 	case 9:
 		return "zz"
 	case 10:
-		return int64(3)
+		return &gt.Arr{E: []gt.Val{int64(1), int64(2), int64(3)}}
 	}
 	return 0.5
 }
@@ -437,7 +440,7 @@ func (p c11) RunBatch(c *fw.Ctx) {
 	rec = func(d int) {
 		if d > 0 {
 			if idx%c.NBatches == c.Batch {
-				p.runOps(c, seq, 8, false)
+				p.runOps(c, seq, 9, false)
 				c.Count("enumerated_sequences", 1)
 			}
 			idx++
@@ -496,7 +499,7 @@ func (p c11) ReplayCase(c *fw.Ctx, input json.RawMessage) {
 		return
 	}
 	if len(cs.Ops) > 0 {
-		u := 8
+		u := 9
 		if cs.Big {
 			u = 20
 		}
